@@ -48,20 +48,7 @@ func checkC04(r *Run) {
 				"the new validator record is created with StakedTokens = "+got+" and StakeValidator then adds the staked amount on top: the record would exceed what is moved into the pool ; required types.ZeroInt()")
 		}
 	}
-	for _, fn := range []string{"FinishUnstakingValidator", "ForceValidatorUnstake"} {
-		if f := r.fn(posK + fn); f != nil {
-			// status 0 (Unstaked) is assigned to a record whose whole stake was removed
-			for _, c := range CallsIn(f, vT+"UpdateStatus") {
-				t := P.callTerm(c)
-				if argTerm(t, 1).String() != "0" {
-					continue
-				}
-				recv := argTerm(t, 0).String()
-				ok := strings.HasPrefix(recv, vT+"RemoveStakedTokens(param:validator, ") && (strings.HasSuffix(recv, "param:validator.StakedTokens)") || strings.HasSuffix(recv, "types.NewInt((types.Int).Int64(param:validator.StakedTokens)))"))
-				r.Check(ok, "C04-R1", fn+"/unstaked-record-has-zero-stake", P.InstrPos(c), "status Unstaked is given to the record with its whole stake removed", "status Unstaked is assigned to "+recv+" which still carries stake")
-			}
-		}
-	}
+	unstakedRecordHasZeroStake(r, "C04-R1")
 	if f := r.fn(posK + "coinsFromUnstakedToStaked"); f != nil {
 		if c := r.oneCall("C04-R1", "coinsFromUnstakedToStaked", f, "x/pos/types.AuthKeeper.SendCoinsFromAccountToModule"); c != nil {
 			t := P.callTerm(c).String()
@@ -130,7 +117,12 @@ func checkC04(r *Run) {
 		}
 		for i, ret := range P.successReturns(f, 0, "nil") {
 			t := P.TermAt(ret.Results[0], ret).String()
-			r.Check(strings.HasPrefix(t, "x/pos/types.AuthKeeper.BurnCoins("), "C04-R1", fmt.Sprintf("burnStakedTokens/returns-burn-result#%d", i), P.InstrPos(ret), "returns the BurnCoins result", "burnStakedTokens can return "+t+" (success without burning)")
+			// either the burn's own result is returned, or nil after the burn succeeded
+			ok := strings.HasPrefix(t, "x/pos/types.AuthKeeper.BurnCoins(")
+			if !ok && t == "nil" {
+				ok, _ = HasAtom(P.Guards(ret, 0), `^isnil\(x/pos/types\.AuthKeeper\.BurnCoins\(`)
+			}
+			r.Check(ok, "C04-R1", fmt.Sprintf("burnStakedTokens/returns-burn-result#%d", i), P.InstrPos(ret), "success only when BurnCoins succeeded", "burnStakedTokens can return "+t+" (success without burning)")
 		}
 	}
 	// Validator.Add/RemoveStakedTokens change the field by exactly their argument
@@ -319,5 +311,24 @@ func removeTokensPersists(r *Run, rule string) {
 			r.Check(got == vT+"RemoveStakedTokens(param:v, param:tokensToRemove)", rule, "removeValidatorTokens/returns-updated", P.InstrPos(ret), got, "returns "+got)
 		}
 		r.callersExactly(rule, "removeValidatorTokens", r.edgesTo(f), []string{posK + "slash"})
+	}
+}
+
+// unstakedRecordHasZeroStake: status Unstaked is only ever given to a record whose stake was removed (C04-R1, C07-R13).
+func unstakedRecordHasZeroStake(r *Run, rule string) {
+	P := r.P
+	for _, fn := range []string{"FinishUnstakingValidator", "ForceValidatorUnstake"} {
+		if f := r.fn(posK + fn); f != nil {
+			// status 0 (Unstaked) is assigned to a record whose whole stake was removed
+			for _, c := range CallsIn(f, vT+"UpdateStatus") {
+				t := P.callTerm(c)
+				if argTerm(t, 1).String() != "0" {
+					continue
+				}
+				recv := argTerm(t, 0).String()
+				ok := strings.HasPrefix(recv, vT+"RemoveStakedTokens(param:validator, ") && (strings.HasSuffix(recv, "param:validator.StakedTokens)") || strings.HasSuffix(recv, "types.NewInt((types.Int).Int64(param:validator.StakedTokens)))"))
+				r.Check(ok, rule, fn+"/unstaked-record-has-zero-stake", P.InstrPos(c), "status Unstaked is given to the record with its whole stake removed", "status Unstaked is assigned to "+recv+" which still carries stake")
+			}
+		}
 	}
 }
